@@ -174,17 +174,38 @@ def run_seq(case, V, hooks, distinct):
             inv = cell.task(n)
             wit_extra = {"serializer": dom, "backend": backend, "threshold": thr}
             read_and_judge(app, inv, expected, V, hooks, "client-before", wit_extra)
+            # fault injection: now and then the write of the result / exception fails (transient storage error, interrupt of the worker, encoding
+            # error); whatever happens next, a final status may only be published together with the matching stored outcome
+            fault = None
+            sb = app.state_backend
+            real_set = (sb.set_result, sb.set_exception)
+            if rng.random() < 0.15:
+                import sqlite3
+                fault = rng.choice(["operational-error", "keyboard-interrupt", "type-error"])
+                exc_obj = {"operational-error": sqlite3.OperationalError("database is locked"), "keyboard-interrupt": KeyboardInterrupt(), "type-error": TypeError("Object is not JSON serializable")}[fault]
+                fired = [0]
+
+                def failing(*a, _exc=exc_obj, **k):
+                    fired[0] += 1
+                    raise _exc
+                sb.set_result = sb.set_exception = failing
+                wit_extra["injected_fault_in_outcome_write"] = fault
+                hooks["outcome_write_faults_injected"] += 1
             set_thread_ctx(app, cell.ctx)
             try:
                 for w in list(app.orchestrator.get_invocations_to_run(1, cell.ctx)):
                     read_and_judge(app, inv, expected, V, hooks, "client-pending", wit_extra)
                     try:
                         w.run(cell.ctx)
-                    except Exception:
+                    except BaseException:  # noqa
                         pass
             finally:
+                sb.set_result, sb.set_exception = real_set
                 clear_thread_ctx(app)
-            st = read_and_judge(app, inv, expected, V, hooks, "client-after", wit_extra)
+            st = read_and_judge(app, inv, expected, V, hooks, "client-after-faulted-write" if fault else "client-after", wit_extra)
+            if fault:
+                distinct.append(["seq-fault", dom, backend, fault, kind, st.name])
+                continue
             if not st.is_final():
                 V.append({"sig": "not-final-after-run", "what": f"status {st.name} after run()", "witness": wit_extra})
             ext = "?"
